@@ -14,16 +14,16 @@ BASE_NOTE = ('Trusted: Lean 4.33.0 kernel, axioms within {propext, Classical.cho
 CLAIMED = {
     'C03': dict(
         technique='Lean 4 theorems (induction over inputs and value lists) about an executable model + differential correspondence + oracle search',
-        text='Per key and for every number of inputs, shape, classification mix and value list, the Lean model of from_sequence/_insert/_insert_slice/_insert_sample/_insert_non_slice/_get_changed_class is proved to concatenate lookups (slice, time, vector axes), to keep exactly the agreeing keys on non-slice axes and to yield valid results, and the merges are proved unable to raise for valid inputs in those regions (merge_*_total); the model is tied to dcmmeta.py by running both on generated merges (all axes, 3-5 D, canonical and non-canonical inputs, missing keys, differing slice normals) and the property itself is searched for a failing input on the implementation.',
-        design='DESIGN.md §7 C03', note=BASE_NOTE + ' Wrapper-level data/affine clauses are checked by the oracle on exact (integer) geometry; float geometry near tolerances is runtime.'),
+        text='Per key and for every number of inputs, shape, classification mix and value list, the Lean model of from_sequence/_insert/_insert_slice/_insert_sample/_insert_non_slice/_get_changed_class is proved to concatenate lookups (slice, time, vector axes), to keep exactly the agreeing keys on non-slice axes and to yield valid results, and the merges are proved unable to raise for valid inputs in those regions (merge_*_total); the model is tied to dcmmeta.py by running both on generated merges (all axes, 3-5 D, canonical and non-canonical inputs, missing keys, differing slice normals) and the property itself is searched for a failing input on the implementation. Voxel data and geometry (Model/Wrap.lean): for any number of inputs of one shape the fill loop of NiftiWrapper.from_sequence is proved to put input i at position i of the merge axis voxel by voxel (merge_data_stacked, loop invariant by induction); the acceptance loop is proved to accept iff every input has the first input\'s axes and lies strictly ahead of its predecessor along the merge axis (merge_accept_iff, merge_refuses_orientation, merge_refuses_position); the merged affine is proved to send index i of the merge axis to voxel 0 of input i (merge_affine_consistent, exact integer arithmetic). wrap_merge correspondence on right and wrong sequences under four header variants.',
+        design='DESIGN.md §7 C03', note=BASE_NOTE + ' numpy view / broadcast semantics are stated in the model as index maps (assumed, validated by the correspondence); affines are exact over the integers (float geometry near tolerances is runtime); header fields other than the transforms are oracle-only.'),
     'C04': dict(
         technique='Lean 4 theorems about the executable model of get_subset/_copy_slice/_copy_sample + differential correspondence + oracle search',
-        text='For every valid extension, axis and index the model of get_subset is proved to be restriction of lookups (slice axis, time axis of 4-D, vector axis of 5-D, raw list surgery for every class), with valid results; get_subset and _simplify are proved unable to raise on valid keys in those regions (subset_*_total, simplify_total); correspondence over all dims/indices of generated 3-5 D extensions.',
-        design='DESIGN.md §7 C04', note=BASE_NOTE),
+        text='For every valid extension, axis and index the model of get_subset is proved to be restriction of lookups (slice axis, time axis of 4-D, vector axis of 5-D, raw list surgery for every class), with valid results; get_subset and _simplify are proved unable to raise on valid keys in those regions (subset_*_total, simplify_total); correspondence over all dims/indices of generated 3-5 D extensions. Voxel data and geometry (Model/Wrap.lean): for every 3-5 D array, axis and index the data of a piece of NiftiWrapper.split is proved to be the hyperplane (index expression per axis and trimming loop modelled literally; split_data_hyperplane), pieces come in index order, as many as the axis is long; the cumulative translation update is proved to give piece i the parent affine moved by i steps of the split axis for any number of pieces (split_affine, split_affine_voxel) whichever of sform / qform is coded (split_piece_header); wrap_split correspondence over all axes, the default axis and four header variants.',
+        design='DESIGN.md §7 C04', note=BASE_NOTE + ' numpy basic indexing is stated in the model as index maps (assumed, validated by the correspondence); nibabel header I/O is trusted; affines exact over the integers.'),
     'C05': dict(
         technique='Lean 4 theorems (uniqueness of canonical form + C03/C04 theorems) + differential correspondence + oracle search',
-        text='split-then-merge is proved to be the identity on canonical keys for the slice axis, the time axis of 4-D and the vector axis of 5-D extensions, for all sizes, and without premises: every split and the merge are proved to succeed (split_merge_*_total); chains, repeated merges of the same pieces and re-splits are searched on the implementation. The time axis of 5-D extensions is the recorded finding F3.',
-        design='DESIGN.md §7 C05', note=BASE_NOTE),
+        text='split-then-merge is proved to be the identity on canonical keys for the slice axis, the time axis of 4-D and the vector axis of 5-D extensions, for all sizes, and without premises: every split and the merge are proved to succeed (split_merge_*_total); chains, repeated merges of the same pieces and re-splits are searched on the implementation. The time axis of 5-D extensions is the recorded finding F3. Voxel data and geometry: merging the pieces of a split is proved to give back every voxel and the shape of any 3-5 D array without trailing singular axes (merge_split_data), and the pieces\' affines are proved accepted by the merge with the parent affine as result, for any number of pieces including one (merge_split_affine).',
+        design='DESIGN.md §7 C05', note=BASE_NOTE + ' numpy semantics as index maps (assumed); data types and scaling are oracle-only.'),
     'C06': dict(
         technique='Lean 4 theorems (simplify reaches a class no earlier class can replace; merge invariants) + differential correspondence + oracle search',
         text='_simplify is proved to preserve lookups and validity and to reach from global slices the first class in the preference order able to represent the values; merges of canonical inputs (slice) and of any valid inputs (time, vector) and the three-level conversion merge are proved canonical; reference minimal class computed independently on every result.',
@@ -31,15 +31,15 @@ CLAIMED = {
     'C13': dict(
         technique='Lean 4 theorems (per-key factorisation of dictionary updates and of from_sequence / get_subset at extension level) + before/after snapshots + single-key re-runs on the implementation',
         text='A per-key update run over a dictionary is proved to change each key independently (foldl_putKey_key, insertWith_key, filterMeta_key); the result entry of every key of a successful from_sequence / get_subset is proved to be the per-key merge / subset of the entries the inputs hold for that key (fromSequence_key, getSubset_key); on the implementation every merge/subset input is snapshotted before and after and every result is compared with the result of inputs restricted to one key.',
-        design='DESIGN.md §7 C13', note=BASE_NOTE + ' Aliasing of nested mutable values (Python object identity) is runtime and only probed.'),
+        design='DESIGN.md §7 C13', note=BASE_NOTE + ' Aliasing of nested mutable values (Python object identity) is runtime: every merge / subset is re-run on fresh objects, the values inside the result are edited in place and the inputs must not move, and vice versa.'),
     'C07': dict(
-        technique='Lean 4 one-step validity theorems (make_empty, merge, subset, simplify) + random API-operation chains checked after every step',
-        text='make_empty is proved to create exactly the base dictionaries its valid classes need and to refuse bad shapes / slice dims; merge (slice, time), subset (slice, time, vector) and simplify are proved to produce key states of the right class and count for every size; on the implementation random chains of split / merge / filter / clear / JSON reload / file save+load are checked after every step with check_valid, to_json and geometry against the image.',
-        design='DESIGN.md §7 C07', note=BASE_NOTE + ' The closure over arbitrary op sequences is established by the search, not by an induction in Lean (only one-step lemmas are proved); nibabel file I/O is trusted.'),
+        technique='Lean 4 validity theorems: one-step (make_empty, merge, subset, simplify) and closure of validity under every nesting of splits and merges by induction over an inductively defined set of produced key states + random API-operation chains checked after every step',
+        text='make_empty is proved to create exactly the base dictionaries its valid classes need and to refuse bad shapes / slice dims; merge (slice, time), subset (slice, time, vector) and simplify are proved to produce key states of the right class and count for every size; the set Produced (valid key states closed under pieces of slice / time / vector splits and under slice / time / vector merges of any number of members) is proved to contain only valid key states of consistent shapes (produced_valid), and splits / slice merges are proved unable to fail on its members; on the implementation random chains of split / merge / filter / clear / JSON reload / file save+load are checked after every step with check_valid, to_json and geometry against the image.',
+        design='DESIGN.md §7 C07', note=BASE_NOTE + ' Filter / clear / reload steps of the searched chains are covered by the C14 / C09 theorems, not by Produced; the image side (shape, slice dim, affine of the image) is the wrapper model of C03 / C04; nibabel file I/O is trusted.'),
     'C08': dict(
         technique='Lean 4 theorems about the executable model of get_meta / meta_valid + exhaustive-index differential correspondence',
-        text='For every matched image and in-bounds index get_meta is proved to return the value at proj(class, slice, time, vector); without index only constants; wrong-length / out-of-range indices raise; any stated mismatch returns the default. The model is compared with NiftiWrapper.get_meta on all keys x all in-bounds indices (+ bad indices) of generated extensions under image perturbations.',
-        design='DESIGN.md §7 C08', note=BASE_NOTE + ' The float comparison of slice directions (np.allclose, atol 1e-6) is a Boolean parameter of the model.'),
+        text='For every matched image and in-bounds index get_meta is proved to return the value at proj(class, slice, time, vector); without index only constants; wrong-length / out-of-range indices raise; any stated mismatch returns the default. The model is compared with NiftiWrapper.get_meta on all keys x all in-bounds indices (+ bad indices) of generated extensions under image perturbations, and on images reoriented with nibabel (axes permuted / flipped, extension untouched), where a lookup may only return the default or the value of the position the voxel came from.',
+        design='DESIGN.md §7 C08', note=BASE_NOTE + ' The float comparison of slice directions (np.allclose, atol 1e-6) is a Boolean parameter of the model, computed by the harness from the generated matrices as the world direction of the slice axis (column slice_dim).'),
     'C10': dict(
         technique='Lean 4 iff theorem between the transcribed check_valid and the declarative rule set + refutation of the full-strength iff (finding F6) + corruption correspondence',
         text='check_valid (as decision logic over an abstraction of the content) is proved to accept iff the rules hold with the count rule imposed on multiplicities > 1; each rule violation is proved rejected; the full-strength iff is refuted by a kernel-checked witness (F6) and proved outside multiplicity-1 classes. All single and sampled double corruptions of generated extensions are run through from_json and NiftiWrapper(img) and through the model.',
@@ -57,16 +57,16 @@ CLAIMED = {
         text='For every S x T x V and every value pattern the per-key three-level merge of to_nifti(embed_meta) is proved to return at (s,t,v) what the file placed there said (convert_lookup_key and its 4-D / 3-D forms); that the three levels of merging cannot fail for any complete stack (T, V >= 2 where those axes exist) is proved too, so the statement holds without premise (convert_total, convert_total_4d, convert_total_3d); the canonical file order is proved unique, the per-volume reversal is proved to put at output slice k the file whose pixels the flip moves there, and get_meta is proved to read the documented position (C08). On the implementation every source file of synthetic series (6 orientations + oblique, both directions, explicit / guessed ordering, shuffled adds, several voxel orders) is located through the output affine and every extracted non-filtered key compared.',
         design='DESIGN.md §7 C01', note=BASE_NOTE + ' The per-key pipeline is composed with the stack model (canonical order for any add order, per-volume reversal on a slice flip) in one Lean theorem (convert_end_to_end); the axis-permutation part of a voxel order and the pixel placement are C02 / C17; extraction is ground truth here; float geometry locates voxels.'),
     'C02': dict(
-        technique='Lean 4 theorems (fill index in range and injective, canonical order unique, reversal index, reorientation transform maps back for all 48 transforms and shapes) + pixel-exact oracle through the affine',
-        text='get_data file index arithmetic is proved a bijection between grid cells and files; for each of the 48 transforms and every shape the reorientation matrix maps output indices to source indices and the output orientation is the requested one; on the implementation every source pixel of labelled synthetic series is looked up at the index the output affine assigns to its DICOM patient position (LPS->RAS), each output voxel hit exactly once, dtype rule checked, for several voxel orders per series.',
+        technique='Lean 4 theorems (fill of the 5-D array and slice column of the affine, fill index in range and injective, canonical order unique, reversal index, reorientation transform maps back for all 48 transforms and shapes) + stack_fill correspondence + pixel-exact oracle through the affine',
+        text='get_data is proved to put pixel (i,j) of file v*T*S + t*S + s at output voxel (i,j,s,t,v) and to keep every voxel when trimming unused axes (stack_fill, stack_data_trim); get_affine is proved to send slice index s to where file s of a regularly spaced first volume lies (stack_affine, exact integers); the file index arithmetic is proved a bijection between grid cells and files; for each of the 48 transforms and every shape the reorientation matrix maps output indices to source indices and the output orientation is the requested one; on the implementation every source pixel of labelled synthetic series is looked up at the index the output affine assigns to its DICOM patient position (LPS->RAS), each output voxel hit exactly once, dtype rule checked, for several voxel orders per series.',
         design='DESIGN.md §7 C02', note=BASE_NOTE + ' nibabel DicomWrapper (pixel array orientation, rescale, affine) and binary64 rounding are trusted; exact only on the integer / axis-aligned lattice, atol 1e-3 for oblique series.'),
     'C11': dict(
         technique='Lean 4 iff theorem between get_shape (model) and the spelled-out acceptance conditions + soundness corollaries + refutation of the full-strength claim (F13) + sub-multiset search',
-        text='get_shape is proved to accept iff: non-empty, counts factor, spacing test passes, every volume block lists exactly the sorted distinct positions, every vector block is constant; hence n = S*T*V and each refusal condition of the property gives invalid. The claim that every volume has one time ordinate is refuted by a kernel-checked witness (F13). A complete regular S x T x V grid added in any order is proved accepted with shape (S,T,V) (accept_complete, accept_complete_order, unbounded). Sub-multisets (drop one/two, duplicate, drop volume/position, irregular gap), add-time refusals and the four queries are run on the implementation; model and implementation agree on acceptance, dims and canonical order.',
+        text='get_shape is proved to accept iff: non-empty, counts factor, spacing test passes, every volume block lists exactly the sorted distinct positions, every vector block is constant; hence n = S*T*V and each refusal condition of the property gives invalid. The claim that every volume has one time ordinate is refuted by a kernel-checked witness (F13). A complete regular S x T x V grid added in any order is proved accepted with shape (S,T,V) (accept_complete, accept_complete_order, unbounded). add_dcm is modelled as a state machine: a dataset is proved accepted iff it has pixels, is congruent with the reference input and (explicit ordering) its cell is free (add_ok_iff, add_refuses_*), a refused dataset is proved to leave every field of the stack unchanged (add_refused_unchanged), and after any sequence of calls the stack is proved to hold exactly the accepted datasets, pairwise in different cells (add_files_are_accepted, add_cells_distinct). Sub-multisets (drop one/two, duplicate, drop volume/position, irregular gap), add sequences with intruders and the four queries are run on the implementation; model and implementation agree on acceptance, dims and canonical order.',
         design='DESIGN.md §7 C11', note=BASE_NOTE + ' That a complete regular grid is accepted for every add order is a theorem (accept_complete_order); the key-guessing loop of get_shape is modelled (guessShape), proved to pick only keys under which the stack is a complete grid, and compared with the implementation.'),
     'C12': dict(
         technique='Lean 4 invariant proof over all op histories of the stack state machine (sort is a function of the multiset) + byte comparison of histories and hash seeds on the implementation',
-        text='For every add order and every finite history of get_shape/get_data/get_affine/to_nifti the file order a call builds its output from is proved to be a function of the file set and the call (history_independent), by an invariant over the dirty flag and permutation invariance of the two-stage sort. On the implementation random and targeted histories and add permutations are compared byte-wise with a fresh stack, and the same series is converted in processes with different PYTHONHASHSEED.',
+        text='For every add order and every finite history of get_shape/get_data/get_affine/to_nifti the file order a call builds its output from is proved to be a function of the file set and the call (history_independent), by an invariant over the dirty flag and permutation invariance of the two-stage sort; its premise (pairwise different sorting tuples) is proved to be established by add_dcm itself for every sequence of calls with explicit ordering, refused datasets included (add_order_and_history_independent). On the implementation random and targeted histories and add permutations are compared byte-wise with a fresh stack, and the same series is converted in processes with different PYTHONHASHSEED.',
         design='DESIGN.md §7 C12', note=BASE_NOTE + ' The model covers file order and the dirty flag; numpy aliasing of the first file affine and header construction are runtime (covered by the byte comparison).'),
     'C14': dict(
         technique='Lean 4 theorems about regexFilter / filterMeta over the extracted default lists + differential correspondence + key-set oracle on conversions',
@@ -82,7 +82,7 @@ CLAIMED = {
         design='DESIGN.md §7 C09', note=BASE_NOTE + ' CPython json lexing and float repr, zlib and nibabel I/O are trusted; there is no character-level parser in the model.'),
     'C15': dict(
         technique='Lean 4 theorems about the executable model of MetaExtractor.__call__ over abstracted elements + key-list correspondence + value oracle',
-        text='For every dataset, translator set and rule set: each element yields at most one standard entry, only if non-blank, non-ignored and with a value, entries keep dataset order; under the extracted default rules no entry has an odd group, one of the pixel-data tags the translator reads out of ignore_pixel_data (PixelData, FloatPixelData, DoubleFloatPixelData), an overlay-data tag or a colour-LUT tag (private data only through translators). The ordered key list of the model equals the implementation on generated datasets (all common VRs/VMs, nested sequences, private blocks incl. parseable CSA headers, private / standard name clashes, seven configurations incl. explicitly empty translators and a user ignore rule); values, JSON-serialisability, determinism and pixel purity are checked by the oracle.',
+        text='For every dataset, translator set and rule set: each element yields at most one standard entry, only if non-blank, non-ignored and with a value, entries keep dataset order; under the extracted default rules no entry has an odd group, one of the pixel-data tags the translator reads out of ignore_pixel_data (PixelData, FloatPixelData, DoubleFloatPixelData), an overlay-data tag or a colour-LUT tag (private data only through translators). The ordered key list of the model equals the implementation on generated datasets (all common VRs/VMs, nested sequences, private blocks incl. parseable CSA headers, private / standard name clashes, seven configurations incl. explicitly empty translators and a user ignore rule); values, JSON-serialisability, determinism, independence of what the extractor processed before, and pixel purity are checked by the oracle.',
         design='DESIGN.md §7 C15', note=BASE_NOTE + ' pydicom and the CSA reader are parameters; the abstraction of elements is computed by the harness. Injectivity of suffixed keys is checked on generated data only.'),
     'C18': dict(
         technique='Lean 4 theorems about the first-fit grouping model (partition, order independence via a loop invariant, fault isolation by list surgery, strict raise) + directory-level correspondence and oracle',
